@@ -11,6 +11,7 @@ evaluation of the same tree.
 from __future__ import annotations
 
 import glob
+import json
 import math
 import os
 import random
@@ -46,6 +47,9 @@ COQ_FN = {"exp": "Fexp", "log": "Flog", "abs": "Fabs", "sin": "Fsin", "cos": "Fc
           "tan": "Ftan", "arcsin": "Farcsin", "arccos": "Farccos", "arctan": "Farctan",
           "sinh": "Fsinh", "cosh": "Fcosh", "tanh": "Ftanh", "arcsinh": "Farcsinh",
           "arccosh": "Farccosh", "arctanh": "Farctanh"}
+
+
+ALL_OPS = set(BIN) | set(KOPS) | {"var", "ref", "neg", "powk", "maxkl", "matmul", "slice", "fun", "l2"}
 
 
 class Reject(Exception):
@@ -99,10 +103,15 @@ def resolve_idx(k, m):
     return [int(v) for v in np.atleast_1d(r)]
 
 
+_REFS: list = []
+
+
 def build(t, V):
     op = t[0]
     if op == "var":
         return V[t[1]]
+    if op == "ref":                       # an AdArray created by an earlier statement
+        return _REFS[t[1]]
     if op == "neg":
         return -build(t[1], V)
     if op in BIN:
@@ -220,6 +229,11 @@ class Lib:
 
 MARGIN = 0.05
 BIG = 1.0e4
+# distance kept to the kinks of abs / heaviside / maximum / l2_norm / characteristic /
+# safe_power, and magnitude bound.  Default: MARGIN, BIG.  Cases whose kink arguments are
+# exact in floating point (dyadic leaves, power-of-two scalings) carry their own, much
+# smaller margin ("kink") and a larger magnitude bound ("big").
+KINK = [MARGIN, BIG]
 
 
 def plain(t, X, L, check):
@@ -279,7 +293,7 @@ def plain(t, X, L, check):
                     need(b >= MARGIN)
                     r = L.f["exp"](a * L.f["log"](b))
                 else:
-                    need(abs(a - b) >= MARGIN)
+                    need(abs(a - b) >= KINK[0])
                     r = b if b > a else a
                 out.append(r)
             return out
@@ -306,7 +320,7 @@ def plain(t, X, L, check):
                     need(c >= MARGIN)
                     r = L.f["exp"](a * L.f["log"](c))
                 else:
-                    need(abs(a - c) >= MARGIN)
+                    need(abs(a - c) >= KINK[0])
                     r = c if c > a else a
                 out.append(r)
             return out
@@ -315,7 +329,7 @@ def plain(t, X, L, check):
             C = cst(t[1], len(A))
             out = []
             for a, c in zip(A, C):
-                need(abs(a - c) >= MARGIN)
+                need(abs(a - c) >= KINK[0])
                 out.append(a if a > c else c)
             return out
         if op == "powk":
@@ -340,17 +354,17 @@ def plain(t, X, L, check):
             out = []
             for a in A:
                 if name == "abs":
-                    need(abs(a) >= MARGIN)
+                    need(abs(a) >= KINK[0])
                     r = abs(a)
                 elif name == "heaviside":
-                    need(abs(a) >= MARGIN)
+                    need(abs(a) >= KINK[0])
                     r = L.c(1) if a > 0 else L.c(0)
                 elif name == "characteristic":
-                    need(abs(abs(a) - par) >= MARGIN)
+                    need(abs(abs(a) - par) >= KINK[0])
                     r = L.c(1) if abs(a) <= par else L.c(0)
                 elif name == "safe_power":
                     pw, zv, tol = float(par[0]), par[1], par[2]
-                    need(abs(abs(a) - tol) >= MARGIN)
+                    need(abs(abs(a) - tol) >= KINK[0])
                     if abs(a) > tol:
                         r = power(a, L.c(pw))
                     else:
@@ -379,7 +393,7 @@ def plain(t, X, L, check):
             for i in range(len(A) // dim):
                 blk = A[i * dim:(i + 1) * dim]
                 r = L.f["sqrt"](sum((b * b for b in blk), L.c(0)))
-                need(r >= MARGIN)
+                need(r >= KINK[0])
                 out.append(r)
             return out
         raise ValueError(op)
@@ -388,7 +402,7 @@ def plain(t, X, L, check):
         r = ev(t)
         if check:
             for v in r:
-                if not (abs(v) <= BIG):
+                if not (abs(v) <= KINK[1]):
                     raise Reject()
         return r
 
@@ -413,16 +427,19 @@ def subtrees(t):
         yield from subtrees(t[3])
 
 
-def in_domain(tree, X):
+def in_domain(tree, X, kink=None, big=None):
     """All nodes of the tree are evaluated inside the smooth domain with a margin and
     stay moderate in magnitude (float evaluation, independent of the implementation)."""
     L = Lib("float")
+    KINK[0], KINK[1] = (kink or MARGIN), (big or BIG)
     try:
         for s in subtrees(tree):
             plain(s, X, L, True)
         return True
     except (Reject, OverflowError, ValueError, ZeroDivisionError, IndexError):
         return False
+    finally:
+        KINK[0], KINK[1] = MARGIN, BIG
 
 
 def q_executable(tree, X):
@@ -652,9 +669,14 @@ def gen_l2_case(rng):
     dim = rng.choice([2, 3])
     nb = rng.randint(1, 3)
     v0 = []
-    for _ in range(nb):
-        s = dy(rng, -3, 3, 4, nonzero=True)
-        pat = rng.choice(["axis", "axis", "pyth", "zero", "onezero"])
+    wide = rng.random() < 0.6
+    scales = [2.0 ** rng.choice(SCALE_EXPS) if wide else 1.0 for _ in range(nb)]
+    if wide and nb >= 2 and rng.random() < 0.7:       # a huge and a tiny block side by side
+        i, j = rng.sample(range(nb), 2)
+        scales[i], scales[j] = 2.0 ** 23, 2.0 ** rng.choice([-23, -22, -20])
+    for b_ in range(nb):
+        s = dy(rng, -3, 3, 4, nonzero=True) * scales[b_]
+        pat = rng.choice(["axis", "axis", "pyth", "pyth", "zero", "onezero"])
         if pat == "axis":
             blk = [0.0] * dim
             blk[rng.randrange(dim)] = s
@@ -671,7 +693,8 @@ def gen_l2_case(rng):
                 blk = [s * a, 0.0] if rng.random() < 0.5 else [0.0, s * b]
         v0 += blk
     X = [v0, [dy(rng, -3, 3, 8, nonzero=True) for _ in range(nb)]]
-    V = rng.choice([["var", 0], ["neg", ["var", 0]], ["mulk", ["var", 0], ["s", dy(rng, -2, 2, 4, nonzero=True)]],
+    V = rng.choice([["var", 0], ["var", 0], ["neg", ["var", 0]],
+                    ["mulk", ["var", 0], ["s", rng.choice([-2.0, 0.5, 4.0, 0.25])]],
                     ["rmulk", ["var", 0], ["s", 2, "int"]]])
     T = ["l2", dim, V]
     w = rng.random()
@@ -683,7 +706,114 @@ def gen_l2_case(rng):
         T = ["sub", ["var", 1], T]
     elif w < 0.7:
         T = ["matmul", {"shape": [1, nb], "rows": [[[j, 1.0] for j in range(nb)]], "fmt": "csr"}, T]
-    return {"kind": "rat", "vars": X, "tree": T}
+    return {"kind": "rat", "vars": X, "tree": T, "kink": 1e-9, "big": 1e12}
+
+
+SCALE_EXPS = [-23, -20, -10, -3, 0, 0, 3, 10, 20, 23]
+
+
+def gen_scaled_case(rng):
+    """Magnitude-sensitive functions (abs/sign, heaviside, characteristic, maximum,
+    safe_power) on one array whose entries span ~14 orders of magnitude (exact
+    power-of-two scalings of dyadic numbers, so every kink argument is exact)."""
+    n = rng.randint(2, 5)
+
+    def entry():
+        return dy(rng, -3, 3, 8, nonzero=True) * 2.0 ** rng.choice(SCALE_EXPS)
+    X = [[entry() for _ in range(n)], [entry() for _ in range(n)]]
+    if rng.random() < 0.7:
+        X[0][rng.randrange(n)] = dy(rng, 1, 3, 8) * 2.0 ** 23
+        X[0][rng.randrange(n)] = dy(rng, 1, 3, 8) * 2.0 ** -23 * rng.choice([1, -1])
+    a = rng.choice([["var", 0], ["neg", ["var", 0]], ["mulk", ["var", 0], ["s", rng.choice([0.5, -4.0])]]])
+    carr = ["a", [entry() for _ in range(n)]]
+    T = rng.choice([
+        ["fun", "abs", None, a],
+        ["mul", ["fun", "abs", None, a], ["var", 1]],
+        ["mul", ["fun", "heaviside", rng.choice([0.0, 0.5, 1.0]), a], ["var", 1]],
+        ["add", ["fun", "characteristic", rng.choice([2.0 ** -30, 2.0 ** -10, 0.25]), a], ["var", 1]],
+        ["max", a, ["var", 1]],
+        ["max", ["var", 1], a],
+        ["maxkr", a, carr],
+        ["maxkl", carr, a],
+        ["maxkr", a, ["s", rng.choice([0.0, 2.0 ** -20, 1.0, 2.0 ** 20])]],
+        ["l2", 1, a],
+        ["div", ["var", 1], ["fun", "abs", None, a]],
+    ])
+    return {"kind": "rat", "vars": X, "tree": T, "kink": 1e-12, "big": 1e16}
+
+
+def gen_hist_case(rng):
+    """A history of statements: AdArrays are created, others derived from them, some
+    mutated by  y[key] = z,  and the earlier ones are used again."""
+    n = rng.randint(2, 4)
+    nv = rng.randint(1, 2)
+    X = [[dy(rng, -3, 3, 8, nonzero=True) for _ in range(n)] for _ in range(nv)]
+
+    def leaf():
+        return ["var", rng.randrange(nv)]
+
+    def small(refs):
+        base = rng.choice([leaf()] + [["ref", k] for k in refs] * 2) if refs else leaf()
+        w = rng.random()
+        if w < 0.3:                      # (a bare name would alias by Python semantics)
+            return ["addk", base, ["s", 0.5]]
+        if w < 0.5:
+            return ["mul", base, leaf()]
+        if w < 0.7:
+            return ["add", base, ["mul", leaf(), leaf()]]
+        if w < 0.85:
+            return ["mulk", base, ["s", dy(rng, -2, 2, 4, nonzero=True)]]
+        return ["sub", base, leaf()]
+
+    def sharing(k):
+        """operations whose result might share storage with its operand"""
+        c = rng.choice([["s", dy(rng, -2, 2, 4)], ["a", [dy(rng, -2, 2, 4) for _ in range(n)]],
+                        ["s", 0.0], ["s", 1, "int"]])
+        return rng.choice([["addk", ["ref", k], c], ["subk", ["ref", k], c], ["raddk", ["ref", k], c],
+                           ["rsubk", ["ref", k], c], ["mulk", ["ref", k], ["s", 1.0]],
+                           ["divk", ["ref", k], ["s", 1.0]], ["neg", ["neg", ["ref", k]]],
+                           ["slice", ["slice", None, None, 1], ["ref", k]],
+                           ["powk", ["ref", k], ["s", 1.0]], ["add", ["ref", k], leaf()]])
+
+    stmts = [["let", small([])]]
+    nlet = 1
+    for _ in range(rng.randint(3, 7)):
+        w = rng.random()
+        if w < 0.35:
+            stmts.append(["let", sharing(rng.randrange(nlet))])
+            nlet += 1
+        elif w < 0.65 and nlet >= 2:
+            tgt = rng.randrange(1, nlet) if rng.random() < 0.8 else 0
+            m = rng.randint(1, n)
+            key = rng.choice([["idx", sorted(rng.sample(range(n), m))],
+                              ["slice", 0, m, 1], ["int", rng.randrange(n)]])
+            if key[0] == "int":
+                m = 1
+            src = ["slice", ["idx", [rng.randrange(n) for _ in range(m)]],
+                   ["mul", leaf(), ["addk", leaf(), ["s", 1.5]]]]
+            stmts.append(["set", tgt, key, src])
+        else:
+            stmts.append(["let", small(list(range(nlet)))])
+            nlet += 1
+    stmts.append(["let", ["mul", ["ref", 0], leaf()]])       # the first array is used again
+    return {"kind": "hist", "vars": X, "stmts": stmts}
+
+
+def expand_refs(t, defs):
+    """The tree with every ["ref", k] replaced by the (expanded) tree that defined array k;
+    None when array k is not a pure expression any more (it was assigned to)."""
+    if t[0] == "ref":
+        return defs[t[1]]
+    out = []
+    for c in t:
+        if isinstance(c, list) and c and isinstance(c[0], str) and c[0] in ALL_OPS:
+            e = expand_refs(c, defs)
+            if e is None:
+                return None
+            out.append(e)
+        else:
+            out.append(c)
+    return out
 
 
 def gen_case(rng, kind, tier):
@@ -816,6 +946,27 @@ DIRECTED = [
      "tree": ["l2", 3, ["neg", ["var", 0]]]},
     {"kind": "rat", "vars": [[0.0, 0.0, 3.0, 4.0], [1.0, 2.0]],
      "tree": ["l2", 2, ["var", 0]]},
+    # histories: derive y from x, assign rows of y, use x again
+    {"kind": "hist", "vars": [[1.0, 2.0, 3.0], [4.0, 5.0, 6.0]],
+     "stmts": [["let", ["mul", ["var", 0], ["var", 1]]],
+               ["let", ["addk", ["ref", 0], ["s", 1.0]]],
+               ["set", 1, ["idx", [0, 2]], ["slice", ["idx", [1, 1]], ["mul", ["var", 1], ["var", 1]]]],
+               ["let", ["mul", ["ref", 0], ["var", 0]]],
+               ["let", ["subk", ["ref", 0], ["a", [1.0, 0.5, 0.25]]]],
+               ["set", 3, ["int", 1], ["slice", ["int", 0], ["var", 0]]],
+               ["let", ["add", ["ref", 0], ["ref", 2]]]]},
+    {"kind": "hist", "vars": [[1.5, -2.0]],
+     "stmts": [["let", ["rsubk", ["var", 0], ["s", 0.0]]],
+               ["let", ["raddk", ["ref", 0], ["s", 0, "int"]]],
+               ["set", 1, ["slice", 0, 2, 1], ["mul", ["var", 0], ["var", 0]]],
+               ["let", ["mul", ["ref", 0], ["ref", 0]]]]},
+    # blocks / entries of very different magnitude in ONE array
+    {"kind": "rat", "vars": [[6291456.0, 8388608.0, 7.152557373046875e-07, 9.5367431640625e-07], [1.0, 2.0]],
+     "tree": ["l2", 2, ["var", 0]], "kink": 1e-9, "big": 1e12},
+    {"kind": "rat", "vars": [[8388608.0, 0.0, 0.0, 0.0, 0.0, 2.384185791015625e-07], [1.0, 2.0]],
+     "tree": ["mul", ["l2", 3, ["var", 0]], ["var", 1]], "kink": 1e-9, "big": 1e12},
+    {"kind": "rat", "vars": [[8388608.0, -1.1920928955078125e-07, 2.0], [1.0, -4194304.0, 2.384185791015625e-07]],
+     "tree": ["mul", ["fun", "abs", None, ["var", 0]], ["max", ["var", 0], ["var", 1]]], "kink": 1e-12, "big": 1e16},
     # safe_power: the Jacobian defect repaired in 7cefac836 (power -1 at 2.0 gave -4)
     {"kind": "sp", "x": [2.0, 0.5, 0.0, -1.5], "power": -1, "int_type": True, "zero_val": 7.0, "tol": 1e-8},
     {"kind": "sp", "x": [2.0, 0.5, 0.0625, 3.0], "power": 0.5, "int_type": False, "zero_val": 1.0, "tol": 0.125},
@@ -1037,14 +1188,24 @@ def tie_b_points(rng, per):
     # l2_norm blocks, dim 2 and 3
     for _ in range(per):
         dim = rng.choice([2, 3])
-        blk = [dy(rng, -3, 3, 8, nonzero=True) if rng.random() < 0.65 else 0.0 for _ in range(dim)]
-        a = pp.ad.AdArray(np.array(blk), sps.identity(dim, format="csr"))
+        nb = rng.choice([1, 2, 2, 3])
+        scales = [2.0 ** rng.choice(SCALE_EXPS) for _ in range(nb)]
+        if nb >= 2 and rng.random() < 0.7:
+            scales[0], scales[1] = 2.0 ** 23, 2.0 ** rng.choice([-23, -21])
+            rng.shuffle(scales)
+        blks = [[(dy(rng, -3, 3, 8, nonzero=True) if rng.random() < 0.65 else 0.0) * sc
+                 for _ in range(dim)] for sc in scales]
+        flat = [v for b in blks for v in b]
+        a = pp.ad.AdArray(np.array(flat), sps.identity(dim * nb, format="csr"))
         r = F.l2_norm(dim, a)
         J = r.jac.toarray()
-        for k in range(dim):
-            duals = "; ".join(f"({rlit(b)}, {1 if j == k else 0})" for j, b in enumerate(blk))
-            out.append((f"l2_norm{blk} d/d{k}", f"fst (l2_dual ROps [{duals}])", float(r.val[0]),
-                        f"snd (l2_dual ROps [{duals}])", float(J[0, k]), True))
+        for bi, blk in enumerate(blks):
+            off = [J[bi, j] for j in range(dim * nb) if not (bi * dim <= j < (bi + 1) * dim)]
+            for k in range(dim):
+                duals = "; ".join(f"({rlit(b)}, {1 if j == k else 0})" for j, b in enumerate(blk))
+                out.append((f"l2_norm block {bi} of {blks} d/d{k}", f"fst (l2_dual ROps [{duals}])",
+                            float(r.val[bi]), f"snd (l2_dual ROps [{duals}])",
+                            float(J[bi, bi * dim + k]), all(v == 0 for v in off)))
     return out
 
 
@@ -1162,6 +1323,11 @@ class C01(Prop):
             "axis-aligned, Pythagorean and all-zero blocks (executed exactly over Q); 5% safe_power "
             "vectors (entries above/below the switch and exactly 0; integer powers to the Coq tie) and "
             "3% a[key] = AdArray row assignments (Coq tie on the row semantics + aliasing probe); "
+            "10% multi-statement histories (let / y[key] = z / reuse; after every statement all "
+            "earlier AdArrays and the variables must be unchanged; every still-pure array goes to the Coq "
+            "tie and the oracle); 8% magnitude-sensitive functions (abs, heaviside, characteristic, "
+            "maximum, l2_norm) on arrays whose entries/blocks span 2^-23..2^23 (exact power-of-two "
+            "scalings, kink margin 1e-9..1e-12 there); "
             "points are rejected unless every node is inside its smooth domain with margin 0.05 "
             "(decided by an independent float evaluation); non-trivial = at least 3 nodes")
     trusted = [
@@ -1202,6 +1368,15 @@ class C01(Prop):
                 yield gen_sp_case(rng)
             elif u < 0.08:
                 yield gen_set_case(rng)
+            elif u < 0.18:
+                yield gen_hist_case(rng)
+            elif u < 0.26:
+                for _ in range(50):
+                    c = gen_scaled_case(rng)
+                    if q_executable(c["tree"], c["vars"]) and \
+                            in_domain(c["tree"], c["vars"], c["kink"], c["big"]):
+                        break
+                yield c
             else:
                 kind = "rat" if rng.random() < 0.7 else "trans"
                 yield gen_case(rng, kind, tier)
@@ -1211,6 +1386,45 @@ class C01(Prop):
         J = ad.jac.toarray() if hasattr(ad.jac, "toarray") else np.asarray(ad.jac)
         return {"val": [float(v) for v in ad.val],
                 "jac": [[float(v) for v in row] for row in np.atleast_2d(J)]}
+
+    def _run_hist(self, case):
+        """Execute the statements on real AdArrays.  After every statement every AdArray
+        created earlier (and every variable) is compared with its snapshot from before the
+        statement; only the target of an assignment may change."""
+        X = [np.array(v, dtype=float) for v in case["vars"]]
+        V = pp.ad.initAdArrays(X)
+        arrays, defs, lets, alias = [], [], [], []
+        _REFS.clear()
+        try:
+            for si, st in enumerate(case["stmts"]):
+                before_v = [self._dense(a) for a in V]
+                before_a = [self._dense(a) for a in arrays]
+                if st[0] == "let":
+                    r = build(st[1], V)
+                    arrays.append(r)
+                    _REFS.append(r)
+                    d = expand_refs(st[1], defs)
+                    defs.append(d)
+                    entry = {"stmt": si, "res": self._dense(r), "tree": d}
+                    if d is not None:
+                        entry["plain"] = [float(v) for v in np.atleast_1d(build(d, X))]
+                    lets.append(entry)
+                    target = None
+                else:
+                    _, tgt, key, src = st
+                    b = build(src, V)
+                    arrays[tgt][_key(key)] = b
+                    defs[tgt] = None          # not a pure expression any more
+                    target = tgt
+                for k, (a, snap) in enumerate(zip(V, before_v)):
+                    if self._dense(a) != snap:
+                        alias.append([si, "var", k])
+                for k, snap in enumerate(before_a):
+                    if k != target and self._dense(arrays[k]) != snap:
+                        alias.append([si, "array", k])
+        finally:
+            _REFS.clear()
+        return {"lets": lets, "alias": alias}
 
     def run_impl(self, case):
         if case["kind"] == "sp":
@@ -1223,6 +1437,8 @@ class C01(Prop):
             out["plain"] = [float(v) for v in F.safe_power(pw, float(case["zero_val"]),
                                                            float(case["tol"]), x.copy())]
             return out
+        if case["kind"] == "hist":
+            return self._run_hist(case)
         if case["kind"] == "set":
             X = [np.array(v, dtype=float) for v in case["vars"]]
             V = pp.ad.initAdArrays(X)
@@ -1289,13 +1505,30 @@ class C01(Prop):
                 return f"row {i} after a[key] = b is {res['res']['val'][i]}, {res['res']['jac'][i]}; expected {want}"
         return None
 
+    def _oracle_hist(self, case, res):
+        if res["alias"]:
+            si, what, k = res["alias"][0]
+            return (f"statement {si} ({json.dumps(case['stmts'][si])[:160]}) changed the value or "
+                    f"Jacobian of the earlier {what} {k}, which it does not assign to")
+        for e in res["lets"]:
+            if e["tree"] is None:
+                continue
+            sub = {"kind": "trans", "vars": case["vars"], "tree": e["tree"]}
+            r = dict(e["res"], plain=e["plain"])
+            why = self.oracle(sub, r)
+            if why:
+                return f"statement {e['stmt']}: {why}"
+        return None
+
     def oracle(self, case, res):
+        if case["kind"] == "hist":
+            return self._oracle_hist(case, res)
         if case["kind"] == "sp":
             return self._oracle_sp(case, res)
         if case["kind"] == "set":
             return self._oracle_set(case, res)
         tree, X = case["tree"], case["vars"]
-        if not in_domain(tree, X):
+        if not in_domain(tree, X, case.get("kink"), case.get("big")):
             return None          # the property speaks about the smooth domain only
         flat = res["val"] + [v for row in res["jac"] for v in row]
         if not all(math.isfinite(v) for v in flat):
@@ -1312,7 +1545,7 @@ class C01(Prop):
                 return f"val[{i}]={a!r} differs from the plain numpy evaluation {c!r}"
             if abs(mp.mpf(a) - b) > mp.mpf(1e-8) * (1 + abs(b)):
                 return f"val[{i}]={a!r} differs from the exact evaluation {mp.nstr(b, 17)}"
-        h = mp.mpf(10) ** (-18)
+        h = mp.mpf(10) ** (-25)
         col = 0
         ncols = sum(len(x) for x in X)
         for row in res["jac"]:
@@ -1338,6 +1571,21 @@ class C01(Prop):
         return None
 
     def coq_case(self, case, res):
+        if case["kind"] == "hist":
+            sizes = [len(x) for x in case["vars"]]
+            xs = clist(case["vars"], lambda x: clist(x, cq))
+            terms = ["true" if not res["alias"] else "false"]
+            for e in res["lets"]:
+                if e["tree"] is None or not q_executable(e["tree"], case["vars"]):
+                    continue
+                flat = e["res"]["val"] + [v for row in e["res"]["jac"] for v in row]
+                if not all(math.isfinite(v) for v in flat):
+                    terms.append("false")
+                    continue
+                t, _ = emit(e["tree"], sizes)
+                terms.append(f"agreeS {t} {xs} {clist(e['res']['val'], cq)} "
+                             f"{clist(e['res']['jac'], lambda row: clist(row, cq))}")
+            return "forallb (fun b : bool => b) " + clist(terms, lambda t: f"({t})")
         if case["kind"] == "sp":
             pw = float(case["power"])
             if pw != int(pw):
@@ -1371,7 +1619,7 @@ class C01(Prop):
         return f"agreeS {e} {xs} {val} {jac}"
 
     def coq_diag(self, case, res):
-        if case["kind"] in ("sp", "set"):
+        if case["kind"] in ("sp", "set", "hist"):
             return None
         sizes = [len(x) for x in case["vars"]]
         e, n = emit(case["tree"], sizes)
@@ -1379,7 +1627,7 @@ class C01(Prop):
         return f"model_outS {e} {xs} {n}%nat"
 
     def nontrivial(self, case, res):
-        if case["kind"] in ("sp", "set"):
+        if case["kind"] in ("sp", "set", "hist"):
             return True
         return sum(1 for _ in subtrees(case["tree"])) >= 3
 
@@ -1388,6 +1636,22 @@ class C01(Prop):
 
     def shrink(self, case, still_fails):
         """Failing sub-trees first, then splice out single elementwise nodes."""
+        if case["kind"] == "hist":
+            stmts = list(case["stmts"])
+            for _ in range(40):              # drop trailing / single statements
+                done = True
+                for i in range(len(stmts) - 1, 0, -1):
+                    cand = stmts[:i] + stmts[i + 1:]
+                    c = dict(case, stmts=cand)
+                    try:
+                        if still_fails(c):
+                            stmts, done = cand, False
+                            break
+                    except Exception:
+                        continue
+                if done:
+                    break
+            return dict(case, stmts=stmts)
         if case["kind"] in ("sp", "set"):
             return case
         cur = case
@@ -1436,6 +1700,8 @@ class C01(Prop):
         while time.time() - t0 < budget_s:
             for c in DIRECTED + [gen_sp_case(rng) for _ in range(15)] + \
                     [gen_set_case(rng) for _ in range(5)] + \
+                    [gen_hist_case(rng) for _ in range(25)] + \
+                    [gen_scaled_case(rng) for _ in range(15)] + \
                     [gen_case(rng, rng.choice(["rat", "trans", "trans"]), "thorough")
                      for _ in range(100)]:
                 n += 1
